@@ -63,6 +63,9 @@ struct World {
     aux: Vec<TaskId>,
     prop: Prop,
     registered: BTreeSet<usize>,
+    /// Call id (first element of the arguments) -> (caller connection, caller serial).
+    call_ids: BTreeMap<u64, (usize, u32)>,
+    bb: SharedBoard,
 }
 
 fn actor_scripts(plan: &Value) -> Vec<(usize, Vec<AOp>)> {
@@ -125,6 +128,20 @@ impl World {
                     if let TapInput::NewConnection { conn, .. } = &input {
                         self.registered.insert(*conn);
                     }
+                    if let TapInput::Message { conn, msg } = &input {
+                        let (serial, value) = match msg {
+                            aldrin_core::message::Message::CallFunction(m) => (Some(m.serial), Some(&m.value)),
+                            aldrin_core::message::Message::CallFunction2(m) => (Some(m.serial), Some(&m.value)),
+                            _ => (None, None),
+                        };
+                        if let (Some(serial), Some(value)) = (serial, value) {
+                            if let Ok(v) = value.deserialize::<Vec<u64>>() {
+                                if v.len() == 2 {
+                                    self.call_ids.insert(v[0], (*conn, serial));
+                                }
+                            }
+                        }
+                    }
                     let before: BTreeSet<ObjectId> = self.model.objs.iter().map(|(u, o)| ObjectId::new(*u, o.cookie)).collect();
                     let out = self.model.step(&input, &snap);
                     let after: BTreeSet<ObjectId> = self.model.objs.iter().map(|(u, o)| ObjectId::new(*u, o.cookie)).collect();
@@ -164,7 +181,8 @@ impl World {
             let Some((what, must)) = info.blocked.get() else {
                 continue;
             };
-            let dyn_must = info.dyn_must.borrow().as_ref().map(|f| f.get()).unwrap_or(false);
+            let dyn_must = info.dyn_must.borrow().as_ref().map(|f| f.get()).unwrap_or(false)
+                && !info.dyn_unless.borrow().as_ref().map(|f| f.get()).unwrap_or(false);
             let client_stopped = self.clients.get(info.client).is_some_and(|c| c.shared.borrow().run_result.is_some());
             if client_stopped {
                 vs.push(Violation::new(
@@ -180,6 +198,43 @@ impl World {
                 ));
             }
         }
+        for v in vs {
+            self.violate(v);
+        }
+    }
+
+    /// A caller that dropped its `PendingReply` (protocol >= 1.16) must have told the broker: at
+    /// quiescence such a call is either gone or marked aborted in the broker.
+    fn check_aborts(&mut self) {
+        let mut vs = Vec::new();
+        let flags: Vec<(u64, bool, u32)> = self
+            .bb
+            .borrow()
+            .call_abort_flags
+            .iter()
+            .map(|(id, (f, minor))| (*id, f.get(), *minor))
+            .collect();
+        for (id, dropped, minor) in flags {
+            if !dropped || minor < 16 {
+                continue;
+            }
+            let Some((conn, serial)) = self.call_ids.get(&id).copied() else {
+                continue;
+            };
+            let Some(c) = self.model.conns.get(&conn) else {
+                continue;
+            };
+            if let Some(callee_serial) = c.calls.get(&serial) {
+                if self.model.calls.get(callee_serial).is_some_and(|call| !call.aborted) {
+                    vs.push(Violation::new(
+                        "call.abort-not-sent",
+                        &[Prop::C06],
+                        format!("call {id} (connection {conn}, serial {serial}): the caller dropped its PendingReply but the broker was never told (the callee still waits)"),
+                    ));
+                }
+            }
+        }
+        self.log.borrow_mut().probe("abort-oracle-evaluated");
         for v in vs {
             self.violate(v);
         }
@@ -426,6 +481,10 @@ pub fn api_harness(spec: &RunSpec) -> RunOutput {
         if minor >= 15 && minor < 20 {
             ctl_c.borrow_mut().force_minor = Some(minor);
         }
+        if c["flush_required"].as_bool().unwrap_or(false) {
+            ctl_c.borrow_mut().flush_required = true;
+            ctl_b.borrow_mut().flush_required = true;
+        }
         if fault_client == Some(i) {
             match fault_kind.as_str() {
                 "error" => ctl_c.borrow_mut().fail_at = Some((fault_at, FaultMode::Error)),
@@ -443,6 +502,7 @@ pub fn api_harness(spec: &RunSpec) -> RunOutput {
 
         let shared = Rc::new(RefCell::new(ClientShared::default()));
         let ctx = Ctx {
+            minor,
             client: i,
             res: Rc::new(RefCell::new(Res::default())),
             bb: bb.clone(),
@@ -531,6 +591,8 @@ pub fn api_harness(spec: &RunSpec) -> RunOutput {
         aux: Vec::new(),
         prop: spec.prop,
         registered: BTreeSet::new(),
+        call_ids: BTreeMap::new(),
+        bb: bb.clone(),
     };
 
     let mut chooser = match &spec.choices {
@@ -664,6 +726,7 @@ pub fn api_harness(spec: &RunSpec) -> RunOutput {
             match stage {
                 1 => {
                     w.check_blocked(false);
+                    w.check_aborts();
                     // The view checks call into the discoverers and lifetimes synchronously.
                     if let Err(info) = crate::exec::catch(|| w.check_views()) {
                         w.on_panic("polling a discoverer or lifetime", info);
